@@ -2,6 +2,7 @@ package repl
 
 import (
 	"context"
+	"errors"
 	"fmt"
 	"math/rand/v2"
 	"os"
@@ -17,6 +18,7 @@ import (
 	"github.com/oxia-db/oxia/common/concurrent"
 	"github.com/oxia-db/oxia/common/vhook"
 	"github.com/oxia-db/oxia/proto"
+	"github.com/oxia-db/oxia/server/kv"
 	"github.com/oxia-db/oxia/server/wal"
 
 	"verif/lib/core"
@@ -254,7 +256,9 @@ func (ch *chaos) write(n int, wait bool) {
 		}
 		wg.Add(1)
 		done := make(chan struct{})
+		leaderAtCall, termAtCall := ch.leader, ch.term
 		lc.Write(context.Background(), req, concurrent.NewOnce(func(resp *proto.WriteResponse) {
+			ackAfterFence(ch, leaderAtCall, termAtCall, val)
 			if len(resp.Puts) == 1 && resp.Puts[0].Status == proto.Status_OK {
 				ch.mu.Lock()
 				ch.acked[key] = val
@@ -294,6 +298,7 @@ func (ch *chaos) elect(fenceSet []*rc.Node) bool {
 		names = append(names, n.Name)
 	}
 	heads := map[string]rc.Head{}
+	stopRacer := func() {}
 	if ch.prop == "C04" {
 		// a client keeps writing to the old leader while the fences go out (its writes are refused from the moment
 		// the leader is fenced; none may reach the log after the leader has answered)
@@ -311,22 +316,24 @@ func (ch *chaos) elect(fenceSet []*rc.Node) bool {
 						default:
 						}
 						seq := ch.writeSeq.Add(1)
+						racer, racerTerm := ln.Name, ch.term-1
 						lc.Write(context.Background(), &proto.WriteRequest{Shard: pb.Int64(0), Puts: []*proto.PutRequest{{Key: fmt.Sprintf("k%d", seq%17), Value: []byte(fmt.Sprintf("v%d-race", seq))}}},
-							concurrent.NewOnce(func(*proto.WriteResponse) {}, func(error) {}))
+							concurrent.NewOnce(func(*proto.WriteResponse) { ackAfterFence(ch, racer, racerTerm, "a racing write") }, func(error) {}))
 						ch.r.Count("writes_racing_with_fences", 1)
 						if i%4 == 3 {
 							time.Sleep(50 * time.Microsecond)
 						}
 					}
 				}()
-				defer func() {
+				stopRacer = func() {
 					select {
 					case <-stop:
 					default:
 						close(stop)
 					}
 					wwg.Wait()
-				}()
+				}
+				defer stopRacer()
 			}
 		}
 	}
@@ -337,6 +344,8 @@ func (ch *chaos) elect(fenceSet []*rc.Node) bool {
 			ch.afterFence(ch.c.Node(k), ch.term, v)
 		}
 	}
+	// the racing client stops before anybody is installed: the old leader may be elected again, and then accepts writes
+	stopRacer()
 	ch.log("fence term %d: %v -> %v", ch.term, names, heads)
 	withDisk := 0
 	eligible := map[string]rc.Head{}
@@ -779,6 +788,32 @@ func (ch *chaos) logDivergenceClass(a, b string, upTo int64) string {
 	return fallback("logs-identical")
 }
 
+// storedCommitOffset reads the commit offset a database carries (-1 when it has none).
+func storedCommitOffset(k kv.KV) (res int64, ok bool) {
+	defer func() {
+		if recover() != nil {
+			ok = false
+		}
+	}()
+	_, v, closer, err := k.Get("__oxia/commit-offset", kv.ComparisonEqual)
+	if err != nil {
+		if errors.Is(err, kv.ErrKeyNotFound) {
+			return -1, true
+		}
+		return 0, false
+	}
+	defer closer.Close()
+	se := &proto.StorageEntry{}
+	if se.UnmarshalVT(v) != nil {
+		return 0, false
+	}
+	var x int64
+	if _, err := fmt.Sscanf(string(se.Value), "%d", &x); err != nil {
+		return 0, false
+	}
+	return x, true
+}
+
 // installApplyMonitor watches every database of the cluster: the offsets applied to one database instance must
 // be consecutive (C07: no entry skipped, applied twice or out of order). The first offset seen on an instance
 // is taken as its starting point.
@@ -806,6 +841,16 @@ func installApplyMonitor(ch *chaos) {
 		prev, seen := last[args[0]]
 		last[args[0]] = off
 		mu.Unlock()
+		if !seen {
+			// first apply on this database instance (after a restart or a snapshot install): it must continue right
+			// after the commit offset the database carries. Read here, inside the apply path: the database is open.
+			if k, ok := args[0].(kv.KV); ok {
+				if stored, ok2 := storedCommitOffset(k); ok2 {
+					prev, seen = stored, true
+					ch.r.Count("apply_resumptions_checked", 1)
+				}
+			}
+		}
 		ch.r.Count("apply_events", 1)
 		if seen && off != prev+1 {
 			node := "?"
@@ -817,6 +862,12 @@ func installApplyMonitor(ch *chaos) {
 			kind := "skipped"
 			if off <= prev {
 				kind = "repeated-or-out-of-order"
+				// a node whose log was cut below what it had applied (known finding) applies those offsets again
+				for _, e := range ch.c.Events() {
+					if e.Kind == "truncate-below-applied" && e.Node == node {
+						kind = "repeated-after-a-truncation-below-the-applied-offset"
+					}
+				}
 			}
 			buf := make([]byte, 1<<14)
 			buf = buf[:runtime.Stack(buf, false)]
